@@ -363,7 +363,7 @@ func init() {
 		ID:        "C19",
 		Technique: "table agreement between the statically parsed descriptor and the generated Go tables/methods: raw descriptor vs request (regenerated code) and vs the parsed .proto sources (checked-in code), struct tags, TypeBuilder's flattened Go-type table and dependency indexes, per-message / per-enum table indexes, descriptor variables, type singletons, getters, Reset, enum maps (canonical-form comparison)",
 		DesignRef: "DESIGN.md 4 C19",
-		LevelText: "For every generated package (checked-in and regenerated corpus): the embedded raw descriptor equals the schema given to the generator byte-for-field (regenerated packages: proto.Equal against the request, options included; checked-in packages: proto.Equal against the .proto source next to each file, which the checker parses itself - names, numbers, kinds, labels, json names, oneof membership, map entries, nesting order, enums, services, imports and options including the cosmos_proto extension options; file options that buf managed mode adds are not compared); every struct tag agrees with its descriptor field (wire keyword, number, label, packed, name, oneof, map key/value tags) and the Go type with the kind; goTypes lists the enums then the messages in protobuf-go's flattened order, each bound to its own Go type (nil for map entries), depIdxs resolves every field dependency to the right entry and the TypeBuilder literal carries the right counts and tables; slowProtoReflect and Reset of message k use msgTypes[k] and enum k's String/Descriptor/Type/Number use enumTypes[k]; md_/fd_ variables resolve through the parent chain to the message's own descriptor and fields; the type singleton's New/Zero/Descriptor and the message's Type/Descriptor/New/Interface/ProtoReflect yield that same Go type; getters are nil-safe and return the mapped field (oneof getters assert the member's wrapper) with the kind's zero value; Reset zeroes *x; <Enum>_name/_value equal the descriptor's values. Not decided: that String() text parses back (library) and registry lookups at run time (they follow from TypeBuilder under A3).",
+		LevelText: "For every generated package (checked-in and regenerated corpus): the embedded raw descriptor equals the schema given to the generator byte-for-field (regenerated packages: proto.Equal against the request, options included; checked-in packages: proto.Equal against the .proto source next to each file, which the checker parses itself - names, numbers, kinds, labels, json names, oneof membership, map entries, nesting order, enums, services, imports and options including the cosmos_proto extension options; file options that buf managed mode adds are not compared); every struct tag agrees with its descriptor field (wire keyword, number, label, packed, name, oneof, map key/value tags) and the Go type with the kind; goTypes lists the enums then the messages in protobuf-go's flattened order, each bound to its own Go type (nil for map entries), depIdxs resolves every field dependency to the right entry and the TypeBuilder literal carries the right counts and tables; slowProtoReflect and Reset of message k use msgTypes[k] and enum k's String/Descriptor/Type/Number use enumTypes[k]; md_/fd_ variables resolve through the parent chain to the message's own descriptor and fields; the type singleton's New/Zero/Descriptor and the message's Type/Descriptor/New/Interface/ProtoReflect yield that same Go type; getters are nil-safe and return the mapped field (oneof getters assert the member's wrapper) with the kind's zero value; Reset zeroes *x; <Enum>_name/_value equal the descriptor's values; a file that publicly imports a file of another Go package forwards every schema symbol that file declares (types, enum constants, name/value maps, extension descriptors). Not decided: that String() text parses back (library) and registry lookups at run time (they follow from TypeBuilder under A3).",
 		Engines:      E{refl.RunCoh, refl.RunNil},
 		RulePrefixes: []string{"COH", "NIL.getter", "G.model", "G.anchor", "GEN.build"},
 		Floors: []core.Floor{
@@ -372,6 +372,7 @@ func init() {
 			{Rule: "COH.ext", Min: 3, Why: "table, variables and TypeBuilder of the extension-declaring corpus file"},
 			{Rule: "COH.initchain", Min: 20, Why: "registration of every generated file + same-package imports in testpb, test3 and the corpus"},
 			{Rule: "COH.imports", Min: 20, Why: "one per generated file: testpb (3), test3 (3) and the corpus"},
+			{Rule: "COH.pubfwd", Min: 3, Why: "public imports across Go packages in the corpus (pubimp: mid, umbrella; proto2 neighbours)"},
 			{Rule: "COH.proto", Min: 6, Why: "six checked-in generated files with a .proto next to them"},
 			{Rule: "COH.gotypes", Min: 15, Why: "generated files"},
 			{Rule: "COH.depidx", Min: 15, Why: "generated files"},
